@@ -304,6 +304,11 @@ class KmipEngine(object):
         if header.batch_order_option:
             batch_order_option = header.batch_order_option.value
 
+        if len(request.batch_items) == 0:
+            raise exceptions.InvalidMessage(
+                "The request does not contain any batch items."
+            )
+
         response_batch = self._process_batch(
             request.batch_items,
             batch_error_option,
